@@ -14,7 +14,7 @@ EXPLANATION = (
     'asserts no over-grant, capacity accounting, FIFO (no job inside while an earlier arrival waits) and head-of-queue '
     'liveness. Only "Confirmed over all paths" discharges a shard. Bounded: capacity 4; quick: 3 jobs, k=4 steps with '
     'symbolic drain bits; thorough: 3 jobs k=5 with symbolic drain bits, 3 jobs k=6 and 4 jobs k=7 with every step drained; '
-    'the quantifier "any number of jobs" is NOT covered beyond 4 jobs.'
+    'quick also runs 4 jobs k=6 with every step drained; the quantifier "any number of jobs" is NOT covered beyond 4 jobs.'
 )
 SRC = 'batch/batch/semaphore.py'
 HM = 'harness.C16_fifo'
@@ -49,7 +49,10 @@ def run(R):
     if R.tier == 'quick':
         pct = 150
         groups.append(group('C16_k4', 4, 3, {'a1': [0, 1], 'w0': W}))
-        R.bounds = {'jobs': 3, 'capacity': 4, 'weights': '1..4 symbolic', 'steps': 'k=4, drain bits symbolic'}
+        # two holders + two waiters is the smallest shape in which a release can be too small for the head waiter
+        groups.append(group('C16_n4k6d', 6, 4, {'a1': [0, 1], 'w0': W, 'w1': W}, all_drained=True))
+        R.bounds = {'jobs': '3 (k=4, drain bits symbolic); 4 (k=6, every step drained)', 'capacity': 4, 'weights': '1..4 symbolic',
+                    'steps': 'k=4 with symbolic drain bits (3 jobs); k=6 with every step drained (4 jobs)'}
     else:
         pct = 1300
         groups.append(group('C16_k5', 5, 3, {'a1': [0, 1], 'w0': W, 'd0': [False, True], 'd1': [False, True]}))
